@@ -162,6 +162,7 @@ type fnCtx struct {
 	closures       int                    // > 0 inside a function literal (its returns are not the function's)
 	lockAlias      map[string]string      // local mu := &v.L used only for direct Lock/Unlock calls: the lock L
 	rlocker        map[string]bool        // the alias is v.L.RLocker(): its Lock / Unlock are RLock / RUnlock of L
+	tryBools       map[string][2]string   // ok := v.L.TryLock() (never assigned again): (lock, mode) held where ok is true
 	unlockFns      map[string]string      // local u := v.L.Unlock (or u := v.lock() returning it): calling u releases L
 	retUnlock      string                 // this function returns the method value v.L.Unlock / RUnlock of lock L
 	lastCallUnlock string                 // the own-method call just inlined returned the unlock of this lock
@@ -1033,6 +1034,15 @@ func (ls *lockScanner) scanStmt(c *fnCtx, s ast.Stmt) {
 						handled[i] = true
 						continue
 					}
+					if lk, md, isTry := ls.tryCall(c, r); isTry && t.Tok == token.DEFINE && len(t.Lhs) == 1 {
+						// ok := v.L.TryLock(): remembered for `if !ok { return }` / `if ok { … }`
+						if c.tryBools == nil {
+							c.tryBools = map[string][2]string{}
+						}
+						c.tryBools[id.Name] = [2]string{lk, md}
+						handled[i] = true
+						continue
+					}
 					if _, isCall := r.(*ast.CallExpr); isCall {
 						// unlock := v.lock() where the own method returns v.L.Unlock
 						c.lastCallUnlock = ""
@@ -1090,6 +1100,7 @@ func (ls *lockScanner) scanStmt(c *fnCtx, s ast.Stmt) {
 					continue
 				}
 				delete(c.lockAlias, id.Name)
+				delete(c.tryBools, id.Name)
 				delete(c.rlocker, id.Name)
 				delete(c.unlockFns, id.Name)
 				var rhs ast.Expr
@@ -1176,10 +1187,27 @@ func (ls *lockScanner) scanStmt(c *fnCtx, s ast.Stmt) {
 		ls.scanStmt(c, t.Init)
 		ls.scanExpr(c, t.Cond)
 		h0 := c.held.clone()
-		hb := ls.branch(c, h0, func() { ls.scanBlock(c, t.Body) })
-		he := h0
+		hThen, hElse := h0, h0
+		// if !x.TryLock() { return … }  /  if x.TryLock() { … }  /  ok := x.TryLock(); if !ok { return }: the lock is
+		// held exactly on the path on which the attempt succeeded (nothing else about TryLock is understood)
+		if lk, md, neg, ok := ls.tryCond(c, t.Cond); ok {
+			with := h0.clone()
+			if with == nil {
+				with = heldSet{}
+			}
+			if with[lk] != "Ex" {
+				with[lk] = md
+			}
+			if neg {
+				hElse = with
+			} else {
+				hThen = with
+			}
+		}
+		hb := ls.branch(c, hThen, func() { ls.scanBlock(c, t.Body) })
+		he := hElse
 		if t.Else != nil {
-			he = ls.branch(c, h0, func() { ls.scanStmt(c, t.Else) })
+			he = ls.branch(c, hElse, func() { ls.scanStmt(c, t.Else) })
 		}
 		c.held = meet(hb, he)
 		if hb == nil && he == nil {
@@ -1476,6 +1504,57 @@ func (ls *lockScanner) lockOp(c *fnCtx, call *ast.CallExpr) (string, string, str
 		}
 	}
 	return v, f, op, true
+}
+
+// tryCall: e is x.TryLock() / x.TryRLock() on a mutex of the object
+func (ls *lockScanner) tryCall(c *fnCtx, e ast.Expr) (string, string, bool) {
+	call, ok := e.(*ast.CallExpr)
+	if !ok || len(call.Args) != 0 {
+		return "", "", false
+	}
+	_, f, op, ok := ls.lockOp(c, call)
+	if !ok {
+		return "", "", false
+	}
+	switch op {
+	case "TryLock":
+		return f, "Ex", true
+	case "TryRLock":
+		return f, "Sh", true
+	}
+	return "", "", false
+}
+
+// tryCond: the condition of an if is exactly [!] x.TryLock() or [!] ok with ok := x.TryLock() never assigned again
+func (ls *lockScanner) tryCond(c *fnCtx, e ast.Expr) (lock, mode string, neg, ok bool) {
+	for {
+		if p, isP := e.(*ast.ParenExpr); isP {
+			e = p.X
+			continue
+		}
+		break
+	}
+	if u, isU := e.(*ast.UnaryExpr); isU && u.Op == token.NOT {
+		neg = true
+		e = u.X
+		for {
+			if p, isP := e.(*ast.ParenExpr); isP {
+				e = p.X
+				continue
+			}
+			break
+		}
+	}
+	if id, isId := e.(*ast.Ident); isId {
+		if tb, has := c.tryBools[id.Name]; has {
+			return tb[0], tb[1], neg, true
+		}
+		return "", "", false, false
+	}
+	if lk, md, isTry := ls.tryCall(c, e); isTry {
+		return lk, md, neg, true
+	}
+	return "", "", false, false
 }
 
 // unlockValue: e is the method value v.L.Unlock / v.L.RUnlock (not called)
